@@ -15,6 +15,8 @@ CHECKS = {
     "C38": "engineids",
     "C31": "methodsave",
     "C39": "archive",
+    "C17": "pcode",
+    "C18": "linegrammar",
 }
 
 MC = "model_checking"
@@ -121,4 +123,18 @@ CLAIMS = {
             "hostile pool (delimiter, escape character, quote, newline, carriage return, tab, unicode, empty); every row must be "
             "one record with exactly the header's columns and unchanged values; a failure is named by the hostile class involved.",
             "Thin oracle (equality after read-back); level exploration. Virtual clock inside the archiver module.", "7 C39"),
+    "C17": (EXP, "TLA+ reference operator PCode.tla (Structure: parent = nearest enclosing opener one level shallower / first "
+                 "offending indentation; laws checked by TLC over all texts of <= 3-4 lines) against the real PcodeParser, judged "
+                 "parse by parse by PCodeTrace.tla",
+            "Every line sequence of length <= 3 (thorough <= 4: 168,420) over indent {0,2,4,8,12} x {opener, leaf, blank, comment}, "
+            "plus random 5-9 line texts and random unicode junk, is rendered to P-code and parsed; TLC checks never-fails, one node "
+            "per line in source order with the line's id, parent = reference parent on correct text, no error on correct text and "
+            "an indentation error on the first offending line.",
+            "Blank/comment lines are not judged for their parent; an opener may have an empty body.", "7 C17"),
+    "C18": (EXP, "TLA+ grammar LineGrammar.tla enumerates the product of part pools with the composed text (TLC initial states); "
+                 "the real PcodeParser parses each line and LineGrammarTrace.tla compares the recovered parts",
+            "61,776 lines: indentation x threshold x name (with spaces/digits) x argument x comment separator x comment, and for "
+            "Watch/Alarm/Simulate tag (with spaces) x all 7 operators x spacing x numeric (incl. negative, exponent) / string value "
+            "x unit x tail (trailing blank, comment); quick takes a seeded sample of 25,000.",
+            "Thin oracle (identity of parts); level exploration.", "7 C18"),
 }
